@@ -14,14 +14,19 @@ TECHNIQUE = ("runtime law monitor + cross-implementation differential: algebraic
              "grain, indexing.ubito*, tensor_map.*, TensorMap, point_by_point; NaN-mask locality differential")
 LEVEL_TEXT = ("Exploration: random triclinic and special cells x random rotations (Haar, identity, near-identity, "
               "180 deg, near-180) x small symmetric strains are pushed through every implementation and the identities "
-              "and build->decompose identity are asserted to 1e-10; vectorised versions run on map shapes "
-              "(1,1,1)..(2,17,23), non-contiguous inputs, random all-NaN voxel masks with bit-equality on unmasked voxels.")
+              "and build->decompose identity are asserted to 1e-10; every cached grain property (U, UB, B, mt, rmt, unitcell, Rod) "
+              "is probed for aliasing and for staleness after set_ubi to a different cell and orientation; vectorised versions run "
+              "on maps with 0 to 4 leading axes (single matrix, flat list, 2-D layer, (1,1,1)..(2,17,23), empty maps), non-contiguous "
+              "inputs, one B broadcast against a map, random all-NaN voxel masks with bit-equality on unmasked voxels; TensorMap is "
+              "re-assigned a map of another lattice through the UBI setter, tm['UBI'] and add_map, and built with from_ubis.")
 LEVEL_NOTE = ("Trusts harness B = cholesky(G*)^T (unique upper-triangular factor with positive diagonal) and "
-              "numpy.linalg; tolerances 1e-10 relative, angles 1e-8 deg.")
+              "numpy.linalg; tolerances 1e-10 relative, angles 1e-8 deg. NaN masks are whole-voxel masks (the map convention); "
+              "voxels that are only partly NaN or zero-filled are not valid UBIs and are not part of the property.")
 
 RULE = ("a case = (cell kind, rotation kind, strain) grain, or a map of such grains with a NaN mask; "
         "non-trivial grain = oblique cell or non-identity rotation; non-trivial map = at least one NaN voxel "
-        "next to a valid one; distinct = (cell kind, rotation kind, rounded cell, shape)")
+        "next to a valid one; map shape, cell kind, mask density, memory layout and assignment route are drawn from the case's own "
+        "rng after one stratified pass over the shape table; distinct = (cell kind, rotation kind, rounded cell, shape)")
 
 ROTK = ["haar", "haar", "haar", "identity", "near-identity", "pi", "near-pi"]
 
@@ -61,7 +66,8 @@ def one_grain(run, seed, idx, mods):
 
     g = grain.grain(ubi)
     run.count("grain_identities")
-    UB, U, B, mt, rmt, uc = g.UB, g.U, g.B, g.mt, g.rmt, g.unitcell
+    # private copies: the alias probe below overwrites what the properties return
+    UB, U, B, mt, rmt, uc = [np.array(v_, float) for v_ in (g.UB, g.U, g.B, g.mt, g.rmt, g.unitcell)]
     if not close(UB @ ubi, np.eye(3), tol):
         V("grain:UB.UBI", "grain.UB . ubi != I")
     if not close(U @ U.T, np.eye(3), tol) or abs(np.linalg.det(U) - 1) > tol:
@@ -98,19 +104,64 @@ def one_grain(run, seed, idx, mods):
                 run.count("rodrigues_convention_passive")
             else:
                 V("rodrigues:" + name, "%s is not the Rodrigues vector of U or U^T (angle %.6g rad)" % (name, ang))
-    # returned values are copies and the cache follows set_ubi
-    g.U[0, 0] = 99.0
-    g.unitcell[0] = -1.0
-    if not close(g.U, U, 0) or not close(g.unitcell, uc, 0):
-        V("grain:cache-alias", "modifying a returned property corrupts the cached value")
+    # unitcell.unitcell attributes for the same lattice: metric tensors and reciprocal cell agree with the grain's
+    uco = unitcell.unitcell(cell_t)
+    rc_t = xtal.cell_from_metric(Gi)
+    rc = np.array([uco.astar, uco.bstar, uco.cstar, uco.alphas, uco.betas, uco.gammas], float)
+    run.count("unitcell_object_attributes")
+    if not close(uco.g, mt, 1e-9) or not close(uco.gi, rmt, 1e-9) or not close(rc[:3], rc_t[:3], 1e-9) or \
+            np.abs(rc[3:] - rc_t[3:]).max() > 1e-7:
+        V("unitcell:metric-attributes", "unitcell(cell).g/gi/astar..gammas disagree with grain.mt/rmt for the same lattice: "
+          "reciprocal cell %r vs %r" % (rc.tolist(), rc_t.tolist()))
+    # returned values are copies and the cache follows set_ubi: every cached property is read (so that its cache is
+    # filled), the returned array is overwritten, and the property is read again
+    try:
+        rod0 = np.array(g.Rod, float)
+    except ValueError:
+        rod0 = None            # xfab.u_to_rod refuses a rotation by exactly 180 deg
+    first = {"U": U, "UB": UB, "B": B, "mt": mt, "rmt": rmt, "unitcell": uc}
+    if rod0 is not None and np.isfinite(rod0).all():
+        first["Rod"] = rod0
+    for name in first:
+        a = getattr(g, name)
+        a[...] = 99.0
+        run.count("alias_probes")
+        if not close(getattr(g, name), first[name], 0):
+            V("grain:cache-alias", "modifying the array returned by grain.%s corrupts the cached value" % name)
+    # a different lattice AND a different orientation, so that no stale cached item can look right by chance
     R2 = xtal.random_rotation(r, "haar")
-    ubi2 = np.linalg.inv(R2 @ B0)
+    cell2 = xtal.random_cell(r, xtal.KINDS[int(r.integers(7))])
+    B2 = xtal.Bmat(cell2)
+    ubi2 = np.linalg.inv(R2 @ B2)
     g.set_ubi(ubi2)
     run.count("cache_histories")
-    if not close(g.U, R2, 1e-9) or not close(g.UB @ ubi2, np.eye(3), tol) or \
-            not close(g.unitcell[:3], cell0[:3], 1e-9) or not close(g.mt, ubi2 @ ubi2.T, tol) or \
-            not close(g.rmt @ g.mt, np.eye(3), tol) or not close(g.B.T @ g.B, g.rmt, tol):
-        V("grain:stale-cache", "derived quantities not refreshed after set_ubi")
+    uc2 = g.unitcell
+    stale = []
+    if not close(g.U, R2, 1e-9):
+        stale.append("U")
+    if not close(g.UB @ ubi2, np.eye(3), tol):
+        stale.append("UB")
+    if not close(g.B, B2, 1e-9):
+        stale.append("B")
+    if not close(uc2[:3], cell2[:3], 1e-9) or np.abs(uc2[3:] - np.array(cell2[3:])).max() > 1e-7:
+        stale.append("unitcell")
+    if not close(g.mt, ubi2 @ ubi2.T, tol):
+        stale.append("mt")
+    if not close(g.rmt @ (ubi2 @ ubi2.T), np.eye(3), 1e-9):
+        stale.append("rmt")
+    ang2 = np.arccos(np.clip((np.trace(R2) - 1) / 2, -1, 1))
+    if ang2 < np.pi - 1e-3:
+        run.count("rodrigues_after_set_ubi")
+        try:
+            Rr2 = xtal.rot_from_rodrigues(np.asarray(g.Rod, float))
+            if not (close(Rr2, R2, 1e-7) or close(Rr2, R2.T, 1e-7)):
+                stale.append("Rod")
+        except ValueError as e:
+            # xfab.u_to_rod refuses a non-orthogonal U: only possible here if U/B are stale (R2 is a proper rotation
+            # more than 1e-3 rad away from 180 deg)
+            stale.append("Rod (raised %s)" % e)
+    if stale:
+        V("grain:stale-cache", "not refreshed after set_ubi: %s" % ",".join(stale))
     # history: the caller re-uses the array it built the grain from; whatever it does to its own buffer the grain's
     # matrices must keep describing one lattice
     src = np.ascontiguousarray(ubi2.copy())
@@ -162,6 +213,16 @@ def one_grain(run, seed, idx, mods):
         V("pbp:ubi_to_unitcell", "point_by_point.ubi_to_unitcell wrong")
     if not close(pbp.ubi_and_ucell_to_u(ubi, cell_t), U_t, 1e-9):
         V("pbp:ubi_and_ucell_to_u", "point_by_point.ubi_and_ucell_to_u wrong")
+    # the same two numba functions fed a Fortran-ordered array and a strided view holding the same numbers (callers pass
+    # ub.T, slices of bigger tables, ...): the values must not depend on the memory layout
+    big = np.zeros((6, 6))
+    big[::2, ::2] = ubi
+    for lay, arr in (("fortran", np.asfortranarray(ubi)), ("strided", big[::2, ::2])):
+        run.count("pbp_layout_probes")
+        c_l = pbp.ubi_to_unitcell(arr)
+        u_l = pbp.ubi_and_ucell_to_u(arr, cell_t)
+        if not close(c_l[:3], cell_t[:3], tol) or np.abs(c_l[3:] - cell_t[3:]).max() > 1e-8 or not close(u_l, U_t, 1e-9):
+            V("pbp:layout:" + lay, "point_by_point.ubi_to_unitcell / ubi_and_ucell_to_u give other values for a %s ubi" % lay)
     # single-voxel vectorised functions
     mtv = tmap.ubi_to_mt(ubi)
     ucv = tmap.mt_to_unitcell(mtv, np.arange(6.0))
@@ -175,28 +236,45 @@ def one_grain(run, seed, idx, mods):
         V("tensor_map:single", "tensor_map vectorised functions disagree with harness for one voxel")
 
 
+SHAPES = [(1, 1, 1), (1, 1, 2), (1, 2, 1), (1, 3, 5), (2, 4, 3), (1, 17, 23), (2, 17, 23), (1, 9, 1),
+          # fewer / more leading axes and empty maps: a flat list of voxels, one 2-D layer, a single matrix, 4 leading axes
+          (7,), (5, 4), (), (2, 1, 3, 2), (0,), (1, 0, 4), (3, 0)]
+
+
+def make_ubis(r, n, cell, strain=1e-3):
+    B0 = xtal.Bmat(cell)
+    ubis = np.empty((n, 3, 3))
+    for i in range(n):
+        ubis[i] = np.linalg.inv(xtal.random_rotation(r, "haar") @ xtal.random_sym_stretch(r, strain) @ B0)
+    return ubis
+
+
+def vec_all(tmap, inp):
+    mt = tmap.ubi_to_mt(inp)
+    uc = tmap.mt_to_unitcell(mt, np.arange(6.0))
+    B = tmap.unitcell_to_b(uc, np.eye(3))
+    U = tmap.ubi_and_b_to_u(inp, B)
+    UB = tmap.fast_invert(inp)
+    return dict(mt=mt, unitcell=uc, B=B, U=U, UB=UB)
+
+
 def one_map(run, seed, idx, mods):
     grain, indexing, unitcell, tmap, pbp = mods
     r = rng(seed, "C04", "m", idx)
-    shapes = [(1, 1, 1), (1, 1, 2), (1, 2, 1), (1, 3, 5), (2, 4, 3), (1, 17, 23), (2, 17, 23), (1, 9, 1)]
-    shp = shapes[idx % len(shapes)]
-    n = int(np.prod(shp))
-    kind = xtal.KINDS[idx % 7]
+    # the first len(SHAPES) maps walk through the table (every shape class is guaranteed), later ones draw from it
+    shp = SHAPES[idx] if idx < len(SHAPES) else SHAPES[int(r.integers(len(SHAPES)))]
+    nl = len(shp)
+    n = int(np.prod(shp)) if nl else 1
+    kind = xtal.KINDS[int(r.integers(7))]
     cell0 = xtal.random_cell(r, kind)
-    B0 = xtal.Bmat(cell0)
-    ubis = np.empty((n, 3, 3))
-    for i in range(n):
-        R = xtal.random_rotation(r, "haar")
-        S = xtal.random_sym_stretch(r, 1e-3)
-        ubis[i] = np.linalg.inv(R @ S @ B0)
-    mask = r.random(n) < (0.0 if idx % 5 == 0 else 0.3)
-    if idx % 7 == 3:
-        mask[:] = True
+    ubis = make_ubis(r, n, cell0)
+    pm = float(r.choice([0.0, 0.3, 0.3, 0.3, 0.7, 1.0]))
+    mask = r.random(n) < pm
     desc = dict(index=idx, shape=shp, kind=kind, n_nan=int(mask.sum()))
     full = ubis.reshape(shp + (3, 3))
     masked = full.copy()
     masked.reshape(n, 3, 3)[mask] = np.nan
-    if idx % 2:
+    if r.random() < 0.5:
         # non-contiguous view of the same values
         big = np.zeros(shp + (3, 6))
         big[..., ::2] = masked
@@ -205,25 +283,19 @@ def one_map(run, seed, idx, mods):
         masked_in = masked
     nontriv = bool(mask.any() and (~mask).any())
     run.case(("map", shp, kind, int(mask.sum())), nontrivial=nontriv, sample=desc)
+    run.count("map_shape_class:%s" % ("empty" if n == 0 else "%d-leading-axes" % nl))
 
     def V(key, what):
         run.violation(key, what, desc)
 
-    dum6, dum3 = np.arange(6.0), np.eye(3)
-    res = {}
-    for tag, inp in (("full", full), ("masked", masked_in)):
-        mt = tmap.ubi_to_mt(inp)
-        uc = tmap.mt_to_unitcell(mt, dum6)
-        B = tmap.unitcell_to_b(uc, dum3)
-        U = tmap.ubi_and_b_to_u(inp, B)
-        UB = tmap.fast_invert(inp)
-        res[tag] = dict(mt=mt, unitcell=uc, B=B, U=U, UB=UB)
+    res = {"full": vec_all(tmap, full), "masked": vec_all(tmap, masked_in)}
     run.count("map_runs")
     m3 = mask.reshape(shp)
     for name in res["full"]:
         a, b = res["full"][name], res["masked"][name]
-        if a.shape != b.shape or a.shape[:3] != shp:
-            V("map:shape:" + name, "output shape %r for input map %r" % (a.shape, shp))
+        want_shape = shp + ((6,) if name == "unitcell" else (3, 3))
+        if a.shape != want_shape or b.shape != want_shape:
+            V("map:shape:" + name, "output shapes %r / %r for input map %r" % (a.shape, b.shape, shp))
             continue
         if not np.isnan(b[m3]).all():
             V("map:nan-not-kept:" + name, "NaN-masked voxel produced a non-NaN %s" % name)
@@ -232,28 +304,65 @@ def one_map(run, seed, idx, mods):
         if np.isnan(a).any():
             V("map:nan-invented:" + name, "valid voxel produced NaN %s" % name)
         run.count("map_voxels_checked", n)
+    if n == 0:
+        return
     # per voxel against the grain object
-    flat = {k: v.reshape((n,) + v.shape[3:]) for k, v in res["full"].items()}
+    flat = {k: v.reshape((n,) + v.shape[nl:]) for k, v in res["full"].items()}
     for i in range(0, n, max(1, n // 12)):
         g = grain.grain(ubis[i])
         if not (close(flat["U"][i], g.U, 1e-10) and close(flat["B"][i], g.B, 1e-10) and
                 close(flat["UB"][i], g.UB, 1e-10) and close(flat["mt"][i], g.mt, 1e-10) and
                 close(flat["unitcell"][i], g.unitcell, 1e-10)):
             V("map:vs-grain", "vectorised value differs from grain object at voxel %d" % i)
-    # TensorMap object: properties, caching after UBI assignment
+    # ONE B matrix (that of the reference cell) broadcast against the whole UBI map: U_i = (B . ubi_i)^T voxel by voxel,
+    # NaN for masked voxels, neighbours untouched
+    B1 = xtal.Bmat(cell0)
+    Ub = tmap.ubi_and_b_to_u(masked_in, B1)
+    run.count("broadcast_b_maps")
+    if Ub.shape != shp + (3, 3):
+        V("map:broadcast:shape", "ubi_and_b_to_u(map, one B) has shape %r for map %r" % (Ub.shape, shp))
+    else:
+        wantU = np.einsum("ij,njk->nki", B1, ubis)          # (B1 @ ubi_n)^T
+        gotU = Ub.reshape(n, 3, 3)
+        if not np.isnan(gotU[mask]).all() or np.isnan(gotU[~mask]).any() or \
+                (n > mask.sum() and np.abs(gotU[~mask] - wantU[~mask]).max() > 1e-12 * np.abs(wantU).max()):
+            V("map:broadcast:values", "ubi_and_b_to_u(map, one B) is not (B.ubi)^T voxel by voxel / NaN where masked")
+    if nl != 3:
+        return
+    # TensorMap object: properties, and every derived map follows a new UBI map whichever way it is assigned
     tm = tmap.TensorMap(maps={"UBI": masked.copy()})
-    ok = (np.array_equal(tm.U[~m3], res["masked"]["U"][~m3]) and
-          np.array_equal(tm.B[~m3], res["masked"]["B"][~m3]) and
-          np.array_equal(tm.unitcell[~m3], res["masked"]["unitcell"][~m3]) and
-          np.array_equal(tm.UB[~m3], res["masked"]["UB"][~m3]) and
-          np.array_equal(tm.mt[~m3], res["masked"]["mt"][~m3]))
-    if not ok or not np.isnan(tm.U[m3]).all():
+    names = ("U", "B", "unitcell", "UB", "mt")
+    ok = all(np.array_equal(getattr(tm, k)[~m3], res["masked"][k][~m3]) for k in names)
+    if not ok or not all(np.isnan(getattr(tm, k)[m3]).all() for k in names):
         V("TensorMap:properties", "TensorMap.U/B/unitcell/UB/mt differ from the vectorised functions")
-    tm.UBI = full.copy()
+    # the new map has another cell and other orientations, so that no stale derived map can look right
+    other = make_ubis(r, n, xtal.random_cell(r, xtal.KINDS[int(r.integers(7))])).reshape(shp + (3, 3))
+    res2 = vec_all(tmap, other)
+    how = ["tm.UBI = x", "tm['UBI'] = x", "tm.add_map('UBI', x)"][idx % 3 if idx < 6 else int(r.integers(3))]
+    if how == "tm.UBI = x":
+        tm.UBI = other.copy()
+    elif how == "tm['UBI'] = x":
+        tm["UBI"] = other.copy()
+    else:
+        tm.add_map("UBI", other.copy())
     run.count("tensormap_histories")
-    if not (np.array_equal(tm.U, res["full"]["U"]) and np.array_equal(tm.unitcell, res["full"]["unitcell"])
-            and np.array_equal(tm.UB, res["full"]["UB"])):
-        V("TensorMap:stale-cache", "TensorMap.U/unitcell/UB not refreshed after assigning UBI")
+    run.count("tensormap_assign:" + how)
+    stale = [k for k in names if not np.array_equal(getattr(tm, k), res2[k])]
+    if stale or not np.array_equal(tm.UBI, other):
+        V("TensorMap:stale-cache", "TensorMap.%s not refreshed after %s" % (",".join(stale) or "UBI", how))
+    # from_ubis: a (NX, NY, 3, 3) array in reconstruction order (X, -Y) becomes a (1, NY, NX) map; voxel (0, j, k)
+    # holds recon[k, NY-1-j] (documented by map_index_to_recon), and the derived maps belong to that voxel
+    if shp[0] == 1:
+        ny, nx = shp[1], shp[2]
+        recon = masked.reshape(ny, nx, 3, 3)[::-1].swapaxes(0, 1).copy()     # recon[k, ny-1-j] = masked[0, j, k]
+        t2 = tmap.TensorMap.from_ubis(recon)
+        run.count("from_ubis_maps")
+        good = tuple(t2.shape) == (1, ny, nx) and np.array_equal(t2.UBI, masked, equal_nan=True)
+        if good:
+            good = all(np.array_equal(getattr(t2, k), res["masked"][k], equal_nan=True) for k in names)
+        if not good:
+            V("TensorMap:from_ubis", "TensorMap.from_ubis(recon) does not place recon[k, NY-1-j] (and its derived U/B/"
+              "unitcell/UB/mt) at voxel (0, j, k)")
 
 
 def check(run, replay=None):
@@ -269,7 +378,7 @@ def check(run, replay=None):
             one_grain(run, replay["seed"], cs["index"], mods)
         run.nontrivial.update(["replay", "replay2"])
         return
-    ng, nm = (300, 24) if run.tier == "quick" else (20000, 500)
+    ng, nm = (300, 45) if run.tier == "quick" else (20000, 600)
     for i in range(ng):
         one_grain(run, run.seed, i, mods)
     for i in range(nm):
@@ -277,5 +386,14 @@ def check(run, replay=None):
     run.require_counter("grain_identities", 100)
     run.require_counter("map_voxels_checked", 100)
     run.require_counter("rodrigues_checked", 50)
+    run.require_counter("rodrigues_after_set_ubi", 50)
+    run.require_counter("alias_probes", 500)
+    run.require_counter("pbp_layout_probes", 100)
+    run.require_counter("broadcast_b_maps", 10)
+    run.require_counter("from_ubis_maps", 3)
+    for c_ in ("map_shape_class:empty", "map_shape_class:0-leading-axes", "map_shape_class:1-leading-axes",
+               "map_shape_class:2-leading-axes", "map_shape_class:3-leading-axes", "map_shape_class:4-leading-axes",
+               "tensormap_assign:tm.UBI = x", "tensormap_assign:tm['UBI'] = x", "tensormap_assign:tm.add_map('UBI', x)"):
+        run.require_counter(c_, 1)
     if run.counters.get("rodrigues_convention_active", 0) and run.counters.get("rodrigues_convention_passive", 0):
         run.violation("rodrigues:mixed-convention", "Rodrigues vectors reported in both sign conventions", {})
